@@ -511,7 +511,7 @@ def g_taglines(s, p=0.35):
         n = s.rng(1, 3)
         out.append({"pre": g_miscs(s), "indent": g_indent(s), "tags": [g_tagname(s) for _ in range(n)],
                     "seps": [s.choice([" ", " ", "  ", "\t", "", " \xa0"]) for _ in range(n)], "trail": g_trail(s),
-                    "comment": s.choice([None, None, None, "#c", "# @not a tag", "#@flaky", "#owner: qa@example.org", "# a @b c", "#"])})
+                    "comment": s.choice([None, None, None, "#c", "# @not a tag", "#@flaky", "#owner: qa@example.org", "# a @b c", "#", "# see #123 and #124", "# a # b", "#x #y @z"])})
     if s.int(4) == 0:
         # the same tag line once more (same indentation, same tags at the same columns), directly or after blank / comment lines
         again = dict(out[-1])
@@ -533,6 +533,13 @@ def g_titled(s, kws, ctx, dialect, has_tags=True, p_desc=0.4):
             v = s.choice([k.lower(), k.upper(), k.swapcase(), k.title(), k[:1].lower() + k[1:]])
             if v != k:
                 t["desc"].insert(s.int(len(t["desc"]) + 1), {"k": "text", "raw": g_indent(s) + v + ":" + s.choice(["", " x", " " + k])})
+        if s.int(5) == 0 and dialect != "en":
+            # an ENGLISH keyword line in a document of another dialect that does not list that word: free text
+            from .refs import DIALECTS as _D2, TITLE_CATS as _T2
+            cat_ = s.choice(_T2)
+            ek = s.choice(_D2["en"][cat_])
+            if not any(ek in _D2[dialect][c_] or (ek + " ") in _D2[dialect][c_] for c_ in _T2):
+                t["desc"].insert(s.int(len(t["desc"]) + 1), {"k": "text", "raw": g_indent(s) + ek + ":" + s.choice(["", " x"])})
         if s.int(4) == 0 and ctx in ("scenario", "background"):
             # a line that starts with a step keyword written slightly differently: another blank character behind it, the other apostrophe,
             # only its first word - free text, keywords are matched exactly
@@ -558,7 +565,7 @@ def g_titled(s, kws, ctx, dialect, has_tags=True, p_desc=0.4):
     return t
 
 
-CELL_UNITS = ["-", "---", ":-:", "--:", ":--", "- -", "=", "===", "+", "*", "1.", ">", "~~~", "***", "___", "[x]", "\ufdd2", "\uf8ff", "\uf8fe", "\ue000", "\uffff", "\x01", "\x1f", "\x7f", "\U0010ffff", "\U000f0000", "\ufdd0\ufdd0", "\ufdd0\ufdd1", "\ufdd0", "\u202a", "\u202e", "\u202c", "\u200f", "#", "#12", "@t", "x", "a", " ", "<a>", "<b>", "\\|", "\\\\", "\\n", "\\x", "é", "\U0001F600", "\xa0", "\t", "1", "$", ".", "\\ "]
+CELL_UNITS = ["<br>", "<br/>", "a<br>0", "&nbsp;", "&lt;", "&#124;", "-", "---", ":-:", "--:", ":--", "- -", "=", "===", "+", "*", "1.", ">", "~~~", "***", "___", "[x]", "\ufdd2", "\uf8ff", "\uf8fe", "\ue000", "\uffff", "\x01", "\x1f", "\x7f", "\U0010ffff", "\U000f0000", "\ufdd0\ufdd0", "\ufdd0\ufdd1", "\ufdd0", "\u202a", "\u202e", "\u202c", "\u200f", "#", "#12", "@t", "x", "a", " ", "<a>", "<b>", "\\|", "\\\\", "\\n", "\\x", "é", "\U0001F600", "\xa0", "\t", "1", "$", ".", "\\ "]
 
 
 def g_cell(s):
